@@ -180,7 +180,25 @@ def check_project(root, dirs, files, sources, out, tag):
     try:
         enc = rules.Enc()
         cases, metas = [], []
-        for mp in [(root,)] + ([d for d in dirs if len(d) == 2][:1]):
+        mps = [(root,)] + ([d for d in dirs if len(d) == 2][:1]) + ([d for d in dirs if len(d) >= 3][:1])
+        for mp in mps:
+            # the same statements under a level limit: every promised import must show as the import between the truncated names
+            if tag == "random" and len(mp) != 2:
+                for k in (1, 2):
+                    depth = k + len(mp) - 1
+                    rl = scan.real_scan(base, root, mp, level_limit=k)
+                    out["n"] += 1
+                    if rl[0] != "OK":
+                        continue
+                    must_l, _ = documented_edges(root, dirs, files, mp)
+                    tr = lambda x: ".".join(x.split(".")[:depth + 1])
+                    need = {(tr(a), tr(b)) for a, b in must_l}
+                    need = {(a, b) for a, b in need if a != b and not (b.startswith(a + ".") and b.count(".") == a.count(".") + 1)}
+                    lost = sorted(need - set(rl[2]))
+                    if lost and not scan.has_ambiguous_imports(dirs, files, mp):
+                        out["violations"].append((dict(dirs=[list(d) for d in dirs], files={scan.dotted(f): (scan.render_file(v["body"]) if v["py"] else None) for f, v in files.items()},
+                                                       module_path=list(mp), level_limit=k, missing=lost),
+                                                  f"with level_limit={k} (module_path {scan.dotted(mp)}) the import {lost[0][0]} -> {lost[0][1]} promised by an import statement is missing", {"kind": "missing_edge_limited"}))
             r = scan.real_scan(base, root, mp)
             out["n"] += 1
             case = dict(dirs=[list(d) for d in dirs], files={scan.dotted(f): (sources.get(f) if sources and f in sources else scan.render_file(v["body"])) if v["py"] else None for f, v in files.items()},
